@@ -39,6 +39,7 @@ pub fn gate_model(ix: &Index) -> Result<GateModel, String> {
     let ext = ix.fns.iter().find(|(_, d)| d.iter().any(|f| f.self_ty.as_deref() == Some("HelperAttributeKinds") && f.sig.inputs.iter().any(|i| quote::ToTokens::to_token_stream(i).to_string().contains("DeriveEntry")))).map(|(_, d)| d[0].clone()).ok_or("no HelperAttributeKinds method taking the derive entries")?;
     let outs = ev.call_fn(St::new(), &ext, Some(sym("HelperAttributeKinds", "kinds")), vec![Val::Sym { ty: Ty::Slice(Box::new(Ty::Named("DeriveEntry".into(), vec![]))), path: "es".into() }]);
     let mut field_of = BTreeMap::new();
+    let mut bad_values: Vec<String> = Vec::new();
     for (st, _) in &outs {
         let mut what = None;
         for (a, b) in &st.cond {
@@ -48,6 +49,10 @@ pub fn gate_model(ix: &Index) -> Result<GateModel, String> {
         }
         for e in &st.events {
             if let Event::Note(n) = e {
+                if let Some(rest) = n.strip_prefix("assigned-value ") {
+                    // a derived trait must switch its flag ON
+                    if let Some((place, val)) = rest.split_once(" := ") { if val != "true" { bad_values.push(format!("{place} := {val}")); } }
+                }
                 if let Some(f) = n.strip_prefix("field-assign ") {
                     let fname = f.replace(' ', "").trim_start_matches("self.").to_string();
                     // a table indexed by the comparison trait itself (`self.cmp[op as usize] = true`): one flag per trait
@@ -60,6 +65,7 @@ pub fn gate_model(ix: &Index) -> Result<GateModel, String> {
             }
         }
     }
+    if !bad_values.is_empty() { bad_values.sort(); bad_values.dedup(); return Err(format!("recording the derived traits does not switch their flags on: {}", bad_values.join("; "))); }
     let mut uns = ev.unsupported.borrow().clone();
     // 2. the gate is read off its consumer: the constructor of the five comparison helper attributes
     //    parses attribute `a` (instead of taking the default) under which derived sets?
